@@ -31,6 +31,7 @@ import (
 
 	"verif/fakemongo"
 	"verif/fakemqtt"
+	"verif/fakeredis"
 )
 
 // MongoURIOptions are the connection-string options used for the server's MongoDB client.
@@ -55,12 +56,21 @@ func (e *PanicError) Error() string { return fmt.Sprintf("cluster: service panic
 type Options struct {
 	// DBName is the MongoDB database name (OrdaDB). Empty means a unique generated name.
 	DBName string
+	// Redis: the server gets a Redis configuration (a fakeredis server), so the per-datatype locks are
+	// distributed locks (redsync) instead of the process-local ones.
+	Redis bool
+	// Instances > 1 builds that many independent server instances (own MongoDB client, own MQTT
+	// client, own Redis client) on the same database, broker and Redis - a multi-server deployment.
+	// The request helpers and the gRPC proxy hand consecutive requests to the instances in turn.
+	// Requires Redis (without it every instance would lock only against itself).
+	Instances int
 }
 
 // Env is one in-process orda server with its fake infrastructure.
 type Env struct {
 	Mongo    *fakemongo.Server
 	MQTT     *fakemqtt.Broker
+	Redis    *fakeredis.Server // nil unless Options.Redis
 	Svc      *service.OrdaService
 	Managers *managers.Managers
 	DBName   string
@@ -79,6 +89,10 @@ type Env struct {
 	mu        sync.Mutex
 	svc       *service.OrdaService
 	mgrs      *managers.Managers
+	instances int
+	svcs      []*service.OrdaService // all instances (svcs[0] == svc)
+	mgrsAll   []*managers.Managers
+	rr        uint32
 	closed    bool
 	grpcSrv   *grpc.Server
 	grpcAddr  string
@@ -103,13 +117,28 @@ func New(opts Options) (*Env, error) {
 		mg.Close()
 		return nil, err
 	}
-	e := &Env{Mongo: mg, MQTT: br, DBName: opts.DBName, cancels: make(map[int]gocontext.CancelFunc)}
+	e := &Env{Mongo: mg, MQTT: br, DBName: opts.DBName, cancels: make(map[int]gocontext.CancelFunc), instances: opts.Instances}
+	if e.instances < 1 {
+		e.instances = 1
+	}
+	if opts.Redis || e.instances > 1 {
+		rd, err := fakeredis.Start()
+		if err != nil {
+			br.Close()
+			mg.Close()
+			return nil, err
+		}
+		e.Redis = rd
+	}
 	if e.DBName == "" {
 		e.DBName = fmt.Sprintf("orda_%d_%d", os.Getpid(), atomic.AddInt32(&envSeq, 1))
 	}
 	if err := e.buildService(); err != nil {
 		br.Close()
 		mg.Close()
+		if e.Redis != nil {
+			e.Redis.Close()
+		}
 		return nil, err
 	}
 	return e, nil
@@ -120,6 +149,28 @@ func serverContext(goCtx gocontext.Context) iface.OrdaContext {
 }
 
 func (e *Env) buildService() error {
+	var svcs []*service.OrdaService
+	var all []*managers.Managers
+	for i := 0; i < e.instances; i++ {
+		mgrs, err := e.buildManagers()
+		if err != nil {
+			for _, m := range all {
+				closeManagers(m)
+			}
+			return err
+		}
+		all = append(all, mgrs)
+		svcs = append(svcs, service.NewOrdaService(mgrs))
+	}
+	e.mu.Lock()
+	e.mgrs, e.svc = all[0], svcs[0]
+	e.Managers, e.Svc = all[0], svcs[0]
+	e.svcs, e.mgrsAll = svcs, all
+	e.mu.Unlock()
+	return nil
+}
+
+func (e *Env) buildManagers() (*managers.Managers, error) {
 	ctx := serverContext(gocontext.Background())
 	mongo, oerr := mongodb.New(ctx, &mongodb.Config{
 		Host:     e.Mongo.Addr(),
@@ -129,26 +180,24 @@ func (e *Env) buildService() error {
 		Options:  MongoURIOptions,
 	})
 	if oerr != nil {
-		return fmt.Errorf("cluster: mongodb.New: %v", oerr)
+		return nil, fmt.Errorf("cluster: mongodb.New: %v", oerr)
 	}
 	notifier, oerr := notification.NewNotifier(ctx, e.MQTT.Addr())
 	if oerr != nil {
 		closeMongo(mongo)
-		return fmt.Errorf("cluster: notification.NewNotifier: %v", oerr)
+		return nil, fmt.Errorf("cluster: notification.NewNotifier: %v", oerr)
 	}
-	rds, oerr := redis.New(ctx, nil)
+	var rconf *redis.Config
+	if e.Redis != nil {
+		rconf = &redis.Config{Addrs: []string{e.Redis.Addr()}}
+	}
+	rds, oerr := redis.New(ctx, rconf)
 	if oerr != nil {
 		closeMongo(mongo)
 		disconnectNotifier(notifier)
-		return fmt.Errorf("cluster: redis.New: %v", oerr)
+		return nil, fmt.Errorf("cluster: redis.New: %v", oerr)
 	}
-	mgrs := &managers.Managers{Mongo: mongo, Notifier: notifier, Redis: rds}
-	svc := service.NewOrdaService(mgrs)
-	e.mu.Lock()
-	e.mgrs, e.svc = mgrs, svc
-	e.Managers, e.Svc = mgrs, svc
-	e.mu.Unlock()
-	return nil
+	return &managers.Managers{Mongo: mongo, Notifier: notifier, Redis: rds}, nil
 }
 
 func closeMongo(m *mongodb.RepositoryMongo) {
@@ -188,11 +237,21 @@ func closeManagers(m *managers.Managers) {
 	closeMongo(m.Mongo)
 }
 
+// current returns the server instance that handles the next request: the only one, or the
+// instances in turn.
 func (e *Env) current() (*service.OrdaService, *managers.Managers) {
 	e.mu.Lock()
 	defer e.mu.Unlock()
+	if len(e.svcs) > 1 {
+		i := int(e.rr) % len(e.svcs)
+		e.rr++
+		return e.svcs[i], e.mgrsAll[i]
+	}
 	return e.svc, e.mgrs
 }
+
+// Instances returns the number of server instances.
+func (e *Env) Instances() int { return e.instances }
 
 // RestartService simulates a restart of the server process: the managers and the service are thrown
 // away (MongoDB client and MQTT client disconnected) and fresh ones are built against the same
@@ -202,8 +261,12 @@ func (e *Env) current() (*service.OrdaService, *managers.Managers) {
 // service that are still blocked.
 func (e *Env) RestartService() error {
 	e.Mongo.Resume()
-	_, old := e.current()
-	closeManagers(old)
+	e.mu.Lock()
+	olds := e.mgrsAll
+	e.mu.Unlock()
+	for _, old := range olds {
+		closeManagers(old)
+	}
 	atomic.AddInt32(&e.restarts, 1)
 	return e.buildService()
 }
@@ -220,7 +283,7 @@ func (e *Env) Close() {
 	gs := e.grpcSrv
 	cancels := e.cancels
 	e.cancels = map[int]gocontext.CancelFunc{}
-	mgrs := e.mgrs
+	mgrs := e.mgrsAll
 	e.mu.Unlock()
 
 	if gs != nil {
@@ -229,9 +292,14 @@ func (e *Env) Close() {
 	for _, cancel := range cancels {
 		cancel()
 	}
-	closeManagers(mgrs)
+	for _, m := range mgrs {
+		closeManagers(m)
+	}
 	e.MQTT.Close()
 	e.Mongo.Close()
+	if e.Redis != nil {
+		e.Redis.Close()
+	}
 }
 
 // InFlight returns the number of service calls (through the helpers or the gRPC proxy) that have
